@@ -281,15 +281,31 @@ class PlaceInterp(RecInterp):
         k = p.get('k')
         if k == 'p_bind' and 'sub' not in p:
             return super().matches(p, v, env)           # a plain binding keeps the reference
+        if k == 'p_tuplestruct' and isinstance(v, SlotRef):
+            # `if let Some(x) = &mut place`: x is a reference to the payload, writes through it reach the place
+            inner = deref(v)
+            if isinstance(inner, tuple) and len(inner) == 3 and inner[0] == 'ctor' and inner[1] == p.get('path') and len(inner[2]) == len(p.get('pats', [])):
+                def child(i):
+                    def setter(nv):
+                        cur = deref(v)
+                        v.set(('ctor', cur[1], tuple(nv if j == i else x for j, x in enumerate(cur[2]))))
+                    return SlotRef(lambda: deref(v)[2][i], setter, f'payload {i} of {v.what}')
+                return all(self.matches(sub, child(i) if not isinstance(inner[2][i], tuple) or inner[2][i][:1] != ('struct',) else inner[2][i], env) for i, sub in enumerate(p['pats']))
         return super().matches(p, deref(v), env)
 
     def _store_field(self, l, value, env):
         try:
-            base = deref(self.val(l['base'], env))
+            raw = self.val(l['base'], env)
         except Unanalysable:
             return
+        base = deref(raw)
         if isinstance(base, tuple) and len(base) == 3 and base[0] == 'struct' and isinstance(base[2], dict) and l.get('name') in base[2]:
             base[2][l['name']] = deref(value)
+        elif isinstance(base, tuple) and len(base) == 3 and base[0] == 'range' and l.get('name') in ('start', 'end'):
+            nv = deref(value)
+            if not (isinstance(raw, SlotRef) and isinstance(nv, int)):
+                raise Unanalysable(f'a write to `.{l.get("name")}` of a range the evaluator holds by value (the place it belongs to is not tracked)')
+            raw.set(('range', nv, base[2]) if l['name'] == 'start' else ('range', base[1], nv - 1))          # (ranges are kept with an inclusive end)
 
     def apply(self, clo, args):
         if isinstance(clo, tuple) and len(clo) == 2 and clo[0] == 'pyfn':
@@ -447,6 +463,15 @@ class PlaceInterp(RecInterp):
             if isinstance(v, SlotRef) and isinstance(v.get(), (bool, int, float, str)):
                 return v.get()
             return v
+        if k == 'addrof' and e.get('mut') and peel(e['a']).get('k') == 'field':
+            fl = peel(e['a'])
+            base = deref(self.val(fl['base'], env))
+            if isinstance(base, tuple) and len(base) == 3 and base[0] == 'struct' and isinstance(base[2], dict) and fl.get('name') in base[2]:
+                nm = fl['name']
+                cur = base[2][nm]
+                if not (isinstance(cur, tuple) and len(cur) == 3 and cur[0] == 'struct') and not isinstance(cur, (VecObj, MapObj, SlotRef)):
+                    # `&mut self.field` of a field held by value (an Option, a number, a range): a reference the callee / the pattern can write through
+                    return SlotRef(lambda: base[2][nm], lambda v: base[2].__setitem__(nm, v), f'field {nm}')
         if k == 'addrof' and e.get('mut') and peel(e['a']).get('k') == 'index':
             ix = peel(e['a'])
             base = deref(self.val(ix['base'], env))
